@@ -37,7 +37,7 @@ pub fn plan() -> Plan {
     Plan {
         profiles,
         directed: vec![],
-        quick_histories: 400,
+        quick_histories: 1200,
         thorough_histories: 240_000,
         s5: None,
         enumerate_session_end: Some((12, 1500, {
